@@ -61,6 +61,7 @@ type Prog struct {
 	declined    map[*ssa.Function]bool // helpers some context could not inline
 	cflow       *chanFlow
 	constGlob   map[string]map[int64]int64 // package-level tables that are never written after initialisation
+	nnGlob      map[string]bool            // package-level variables that always hold a non-nil value
 	unresolved  []string                   // anchors that failed to resolve
 	modCache    *modInfo
 	premiseBusy map[*ssa.Function]bool
@@ -404,6 +405,68 @@ func (p *Prog) constGlobals() map[string]map[int64]int64 {
 		delete(out, n)
 	}
 	p.constGlob = out
+	return out
+}
+
+// nonNilGlobals: package-level variables initialised once, by the package
+// initialiser, with a value that is never nil (errors.New, fmt.Errorf, a
+// composite literal's address) and never stored to anywhere else
+// (ErrServerClosed and friends).
+func (p *Prog) nonNilGlobals() map[string]bool {
+	if p.nnGlob != nil {
+		return p.nnGlob
+	}
+	out := map[string]bool{}
+	bad := map[string]bool{}
+	scan := func(fn *ssa.Function, isInit bool) {
+		for _, b := range fn.Blocks {
+			for _, in := range b.Instrs {
+				st, ok := in.(*ssa.Store)
+				if !ok {
+					continue
+				}
+				g, ok := st.Addr.(*ssa.Global)
+				if !ok || g.Pkg != p.SSA {
+					continue
+				}
+				if !isInit {
+					bad[g.Name()] = true
+					continue
+				}
+				nn := false
+				switch v := st.Val.(type) {
+				case *ssa.Call:
+					if f, isF := v.Call.Value.(*ssa.Function); isF {
+						switch f.String() {
+						case "errors.New", "fmt.Errorf":
+							nn = true
+						}
+					}
+				case *ssa.Alloc:
+					nn = true
+				case *ssa.MakeInterface:
+					if _, isA := v.X.(*ssa.Alloc); isA {
+						nn = true
+					}
+				}
+				if nn && !out[g.Name()] {
+					out[g.Name()] = true
+				} else {
+					bad[g.Name()] = true
+				}
+			}
+		}
+	}
+	if initFn := p.SSA.Func("init"); initFn != nil {
+		scan(initFn, true)
+	}
+	for _, fn := range p.AllFuncs {
+		scan(fn, false)
+	}
+	for n := range bad {
+		delete(out, n)
+	}
+	p.nnGlob = out
 	return out
 }
 
